@@ -348,6 +348,19 @@ pub fn adversarial() -> Vec<(String, Vec<u8>)> {
     ] {
         out.push((name.to_string(), text.as_bytes().to_vec()));
     }
+    // long non-ASCII YAML in the four wide encodings: every refill of the
+    // re-encoder's output buffer cuts a multi-byte character
+    for (k, enc) in ["utf-16le", "utf-16be", "utf-32le", "utf-32be"].into_iter().enumerate() {
+        let chars = ['\u{e9}', '\u{20ac}', '\u{1f600}', 'x', '\u{30a2}'];
+        let mut text = String::from("- \"");
+        for i in 0..(30_000 + 1111 * k) {
+            text.push(chars[(i + k + i / 7) % 5]);
+        }
+        text.push_str("\"\n");
+        out.push((format!("yaml_{}_long_multibyte", enc), crate::checks::c07::encode_text(&text, enc, k % 2 == 0)));
+        let euro = format!("- \"{}\"\n", "\u{20ac}".repeat(20_000 + k));
+        out.push((format!("yaml_{}_long_3byte", enc), crate::checks::c07::encode_text(&euro, enc, k % 2 == 1)));
+    }
     out.push(("utf16_bom_only".into(), vec![0xff, 0xfe]));
     out.push(("utf32_bom_only".into(), vec![0, 0, 0xfe, 0xff]));
     out.push(("utf16_odd".into(), vec![0xff, 0xfe, b'a']));
@@ -411,6 +424,22 @@ pub fn bytes_strategy() -> BoxedStrategy<BytesCase> {
             .prop_map(|(m, mut b)| { b.insert(0, m); BytesCase { bytes: b, family: "msgpack_marker_first", origin: Some(Fmt::Msgpack) } }),
         1 => fixture,
         1 => mutated_fixture,
+        // YAML streams re-encoded as UTF-16/32 (other formats pass unchanged), whole
+        // or damaged at byte level (ill-formed code units, cut units)
+        3 => (stream_strategy(3, Shape::COMMON_NULL), 0usize..4, any::<bool>(), proptest::option::weighted(0.4, mutops_strategy()))
+            .prop_map(|(s, e, bom, ops)| {
+                if s.fmt != Fmt::Yaml {
+                    return BytesCase { bytes: s.bytes, family: "valid_stream", origin: Some(s.fmt) };
+                }
+                let enc = ["utf-16le", "utf-16be", "utf-32le", "utf-32be"][e];
+                let text = String::from_utf8_lossy(&s.bytes).into_owned();
+                let bom = bom || !text.chars().next().map_or(false, |c| c.is_ascii() && c != '\0');
+                let bytes = crate::checks::c07::encode_text(&text, enc, bom);
+                match ops {
+                    None => BytesCase { bytes, family: "yaml_utf16_32", origin: Some(Fmt::Yaml) },
+                    Some(ops) => BytesCase { bytes: apply_mutations(bytes, &ops, Fmt::Yaml), family: "yaml_utf16_32_damaged", origin: Some(Fmt::Yaml) },
+                }
+            }),
     ]
     .boxed()
 }
